@@ -208,4 +208,16 @@ Depth(t) ==
   IF IsMap(t) THEN 1 + DepthMax({Depth(At(t, k)) : k \in Keys(t)})
   ELSE IF IsList(t) THEN 1 + DepthMax({Depth(Elems(t)[i]) : i \in DOMAIN Elems(t)})
   ELSE 0
+(* What a JSON reader sees of a value that bkl printed as JSON: Go prints the *)
+(* double 3.0 as 3, so a whole-valued double arrives as an integer.  Used    *)
+(* only where the observation is the JSON text of the CLI.                   *)
+WholeDigits == {"0","1","2","3","4","5","6","7","8","9","-"}
+WholeFloat(t) == t[1] = "f" /\ \A i \in 1..Len(Pay(t)) : Char(Pay(t), i) \in WholeDigits
+RECURSIVE JsonOut(_)
+JsonOut(t) ==
+  IF IsMap(t) THEN M([k \in Keys(t) |-> JsonOut(At(t, k))])
+  ELSE IF IsList(t) THEN L([i \in DOMAIN Elems(t) |-> JsonOut(Elems(t)[i])])
+  ELSE IF WholeFloat(t) THEN <<"i", Pay(t)>>
+  ELSE t
+JsonOuts(q) == [i \in DOMAIN q |-> JsonOut(q[i])]
 =============================================================================
